@@ -58,6 +58,9 @@ def build_tools(scratch):
     return b, dump
 
 
+REF_RET = {}
+
+
 def parse_refs(ref_h):
     """//REF key  followed by a function definition -> {key: function name}"""
     refs = {}
@@ -68,6 +71,7 @@ def parse_refs(ref_h):
             nxt = lines[i + 1]
             fm = re.search(r'([A-Za-z_][A-Za-z0-9_]*)\s*\(', nxt.split('{')[0])
             refs[normkey(m.group(1))] = fm.group(1)
+            REF_RET[fm.group(1)] = nxt.split('{')[0][:fm.start()].replace('static', '').strip()
     return refs
 
 
@@ -111,6 +115,10 @@ def classify_type(t):
     t0 = t
     if t['true_name'] == 'atomic string':
         return 'cstr', 'char'
+    if t.get('array') and t.get('array_size', 0) > 0:
+        elem = t['true_name'].split(' [')[0].strip()
+        if re.fullmatch(r'(unsigned |signed )?(char|short int|int|long int|long long int)|float|double|bool', elem):
+            return 'arr', '%s:%d' % (elem, t['array_size'])
     if t.get('pointer'):
         tgt = t['target']
         while tgt.get('wrapped') and not tgt.get('pointer') and 'target' in tgt:
@@ -136,101 +144,18 @@ def ident(s):
     return re.sub(r'[^A-Za-z0-9_]', '_', s)
 
 
-def gen_harness(corpus, optname, wrappers, refs, strmax, argov={}, variants={}):
-    """returns (source text, entries list, skipped list, missing list)"""
-    out = ['// generated by engine/c01check.py for corpus %s, options %s' % (corpus, optname),
-           '#define C01_STRMAX %d' % strmax,
-           '#include "c01_support.h"', '#include "%s.h"' % corpus, '#include "%s.ref.h"' % corpus, '']
+def gen_harness(corpus, optname, wrappers, refs, strmax, argov={}, variants={}, py=False):
+    """One harness entry per wrapper (and per //VARIANT): the wrapper, declared from the DATABASE signature, is called
+    on symbolic arguments and compared with the corpus's direct C++ reference call on twin arguments.
+    py=True: -python (simple) back end: the wrapper takes a Python argument tuple built from the same values."""
+    out = ['// generated by engine/c01check.py for corpus %s, options %s%s' % (corpus, optname, ' (python back end)' if py else ''),
+           '#define C01_STRMAX %d' % strmax] + (['#include "vpy.h"'] if py else []) + \
+          ['#include "c01_support.h"', '#include "%s.h"' % corpus, '#include "%s.ref.h"' % corpus, '']
     entries, skipped, missing = [], [], []
     used_keys = set()
+    kind = 'python' if py else 'c'
     for w in wrappers:
-        if w['kind'] != 'c':
-            continue
-        key = normkey('%s(%s)' % (w['function'], ','.join(p['type']['true_name'] for p in w['params'])))
-        if w['is_destructor']:
-            skipped.append((w['name'], key, 'destructor'))
-            continue
-        if key not in refs:
-            missing.append((w['name'], key))
-            continue
-        used_keys.add(key)
-        cats = [classify_type(p['type']) for p in w['params']]
-        rcat = classify_type(w['return']) if w['has_return'] else ('void', 'void')
-        if any(c[0] == 'unsupported' for c in cats) or rcat[0] == 'unsupported':
-            skipped.append((w['name'], key, 'unsupported type'))
-            continue
-        rtype = cxx_type(w['return']) if w['has_return'] else 'void'
-        ptypes = [cxx_type(p['type']) for p in w['params']]
-        # the wrapper is declared with the signature the DATABASE records (a foreign-function client sees only this)
-        out.append('extern "C" %s %s(%s);' % (rtype, w['name'], ', '.join(ptypes)))
-        base_cats = cats
-        for vn, var in enumerate([None] + variants.get(key, [])):
-          cats = list(base_cats)
-          ov = dict(argov)
-          if var is not None:
-              ov[(key, var[0])] = var[1]
-          ename = 'h_' + ident(w['name']) + ('' if var is None else '_v%d' % vn)
-          body = ['extern "C" void %s() {' % ename, '  // %s%s' % (key, '' if var is None else ' variant: parameter %d is a %s' % var)]
-          if True:
-            an, bn = [], []
-            for i, (cat, base) in enumerate(list(cats)):
-                T = ptypes[i]
-                if cat == 'objptr':
-                    b = ov.get((key, i), ident(base))
-                    cats[i] = (cat, base, b)
-                    body.append('  %s *a%d = verif_make_%s(); %s *b%d = verif_clone_%s(a%d);' % (base, i, b, base, i, b, i))
-                elif cat == 'cstr':
-                    body.append('  const char *a%d = verif_make_cstr(); const char *b%d = a%d;' % (i, i, i))
-                elif cat == 'enum':
-                    body.append('  %s a%d = verif_make_%s(); %s b%d = a%d;' % (T, i, ident(base), T, i, i))
-                else:
-                    body.append('  %s a%d = Nd<%s>::get(); %s b%d = a%d;' % (T, i, T, T, i, i))
-                an.append('(%s)a%d' % (T, i))
-                bn.append('(%s)b%d' % (T, i))
-            call_w = '%s(%s)' % (w['name'], ', '.join(an))
-            call_r = '%s(%s)' % (refs[key], ', '.join(bn))
-            body.append('  g_trace = 0;')
-            if rcat[0] == 'void':
-                body.append('  %s; int tw = g_trace; g_trace = 0;' % call_w)
-                body.append('  %s; int tr = g_trace;' % call_r)
-            else:
-                body.append('  %s rw = %s; int tw = g_trace; g_trace = 0;' % (rtype, call_w))
-                body.append('  %s rr = %s; int tr = g_trace;' % (rtype, call_r))
-            body.append('  ASSERT(tw == tr, "C01 wrapper reaches the overload/default variant the database names (trace cell)");')
-            if rcat[0] == 'objptr':
-                b = ident(rcat[1])
-                body.append('  ASSERT((rw == 0) == (rr == 0), "C01 wrapper result null-ness equals the direct call");')
-                alias = ' || '.join(['((const void *)rw == (const void *)a%d)' % i for i, c in enumerate(cats) if c[0] == 'objptr']) or 'false'
-                for i, c in enumerate(cats):
-                    if c[0] == 'objptr':
-                        body.append('  ASSERT(((const void *)rw == (const void *)a%d) == ((const void *)rr == (const void *)b%d), "C01 wrapper result aliases the same argument as the direct call");' % (i, i))
-                body.append('  ASSERT(rw == 0 || rr == 0 || verif_same_%s(rw, rr), "C01 wrapper result object equals the direct call result");' % b)
-            elif rcat[0] == 'cstr':
-                body.append('  ASSERT(verif_same_cstr(rw, rr), "C01 wrapper string result equals the direct call");')
-            elif rcat[0] in ('scalar', 'enum'):
-                body.append('  ASSERT(verif_same_scalar(rw, rr), "C01 wrapper return value equals the direct call");')
-            for i, c in enumerate(cats):
-                if c[0] == 'objptr':
-                    body.append('  ASSERT(verif_same_%s(a%d, b%d), "C01 wrapper leaves argument objects in the same state as the direct call");' % (c[2], i, i))
-            body.append('  WITNESS();')
-            body.append('}')
-            out += body + ['']
-            entries.append(dict(entry=ename, wrapper=w['name'], key=key, function=w['function'], params=ptypes, ret=rtype))
-    unused = sorted(set(refs) - used_keys)
-    return '\n'.join(out), entries, skipped, missing, unused
-
-
-def gen_harness_py(corpus, optname, wrappers, refs, strmax, argov={}, variants={}):
-    """-python (simple) back end: the wrapper takes a Python argument tuple; arguments are model objects built from
-    the same symbolic values, preconditioned on lying in the C++ parameter type (they are produced FROM values of that
-    type), and the returned object must carry the direct call's result."""
-    out = ['// generated by engine/c01check.py for corpus %s, options %s (python back end)' % (corpus, optname),
-           '#define C01_STRMAX %d' % strmax, '#include "vpy.h"',
-           '#include "c01_support.h"', '#include "%s.h"' % corpus, '#include "%s.ref.h"' % corpus, '']
-    entries, skipped, missing = [], [], []
-    used_keys = set()
-    for w in wrappers:
-        if w['kind'] != 'python':
+        if w['kind'] != kind:
             continue
         key = normkey('%s(%s)' % (w['function'], ','.join(p['type']['true_name'] for p in w['params'])))
         if w['is_destructor']:
@@ -242,63 +167,112 @@ def gen_harness_py(corpus, optname, wrappers, refs, strmax, argov={}, variants={
         used_keys.add(key)
         base_cats = [classify_type(p['type']) for p in w['params']]
         rcat = classify_type(w['return']) if w['has_return'] else ('void', 'void')
-        if any(c[0] == 'unsupported' for c in base_cats) or rcat[0] == 'unsupported':
+        if any(c[0] == 'unsupported' for c in base_cats) or rcat[0] in ('unsupported', 'arr') or (py and any(c[0] == 'arr' for c in base_cats)):
             skipped.append((w['name'], key, 'unsupported type'))
             continue
         rtype = cxx_type(w['return']) if w['has_return'] else 'void'
         ptypes = [cxx_type(p['type']) for p in w['params']]
-        out.append('extern "C" PyObject *%s(PyObject *self, PyObject *args);' % w['name'])
+        ref_ret = REF_RET.get(refs[key], '')
+        ref_is_string = 'std::string' in ref_ret
+        # the wrapper is declared with the signature the DATABASE records (a foreign-function client sees only this)
+        if py:
+            out.append('extern "C" PyObject *%s(PyObject *self, PyObject *args);' % w['name'])
+        else:
+            out.append('extern "C" %s %s(%s);' % (rtype, w['name'], ', '.join(ptypes)))
         for vn, var in enumerate([None] + variants.get(key, [])):
-            cats = list(base_cats)
             ov = dict(argov)
             if var is not None:
                 ov[(key, var[0])] = var[1]
             ename = 'h_' + ident(w['name']) + ('' if var is None else '_v%d' % vn)
-            body = ['extern "C" void %s() {' % ename, '  // %s' % key, '  PyObject *args = vpy_tuple(%d);' % len(cats)]
-            bn = []
-            for i, (cat, base) in enumerate(list(cats)):
-                T = ptypes[i]
-                if cat == 'objptr':
-                    b = ov.get((key, i), ident(base))
-                    cats[i] = (cat, base, b)
-                    body.append('  %s *a%d = verif_make_%s(); %s *b%d = verif_clone_%s(a%d);' % (base, i, b, base, i, b, i))
-                    body.append('  vpy_tuple_set(args, %d, vpy_uint((unsigned long)a%d));' % (i, i))
-                elif cat == 'cstr':
-                    body.append('  const char *a%d = verif_make_cstr(); const char *b%d = a%d;' % (i, i, i))
-                    body.append('  vpy_tuple_set(args, %d, vpy_str(a%d));' % (i, i))
-                elif cat == 'enum':
-                    body.append('  %s a%d = verif_make_%s(); %s b%d = a%d;' % (T, i, ident(base), T, i, i))
-                    body.append('  vpy_tuple_set(args, %d, vpy_int((long)a%d));' % (i, i))
+            body = ['extern "C" void %s() {' % ename, '  // %s%s' % (key, '' if var is None else ' variant: parameter %d is a %s' % var)]
+            rounds = 2 if rcat[0] == 'cstr' else 1       # a second call exposes results kept in static storage
+            for rd in range(rounds):
+                sfx = '' if rd == 0 else '_%d' % (rd + 1)
+                cats = list(base_cats)
+                an, bn, post = [], [], []
+                if py:
+                    body.append('  PyObject *args%s = vpy_tuple(%d);' % (sfx, len(cats)))
+                for i, (cat, base) in enumerate(list(cats)):
+                    T = ptypes[i]
+                    a, b = 'a%d%s' % (i, sfx), 'b%d%s' % (i, sfx)
+                    pyarg = None
+                    if cat == 'objptr':
+                        bsuf = ov.get((key, i), ident(base))
+                        cats[i] = (cat, base, bsuf)
+                        body.append('  %s *%s = verif_make_%s(); %s *%s = verif_clone_%s(%s);' % (base, a, bsuf, base, b, bsuf, a))
+                        post.append('  ASSERT(%%s verif_same_%s(%s, %s), "C01 wrapper leaves argument objects in the same state as the direct call");' % (bsuf, a, b))
+                        pyarg = 'vpy_uint((unsigned long)%s)' % a
+                    elif cat == 'cstr':
+                        body.append('  const char *%s = verif_make_cstr(); const char *%s = %s;' % (a, b, a))
+                        pyarg = 'vpy_str(%s)' % a
+                    elif cat == 'enum':
+                        body.append('  %s %s = verif_make_%s(); %s %s = %s;' % (T, a, ident(base), T, b, a))
+                        pyarg = 'vpy_int((long)%s)' % a
+                    elif cat == 'arr':
+                        et, n = base.split(':')
+                        body.append('  %s %s[%s]; %s %s[%s]; for (int k = 0; k < %s; k++) { %s[k] = Nd<%s>::get(); %s[k] = %s[k]; }' % (et, a, n, et, b, n, n, a, et, b, a))
+                        post.append('  { bool same = true; for (int k = 0; k < %s; k++) if (%s[k] != %s[k]) same = false; ASSERT(%%s same, "C01 wrapper leaves array arguments in the same state as the direct call"); }' % (n, a, b))
+                        an.append(a)
+                        bn.append(b)
+                        continue
+                    else:
+                        body.append('  %s %s = Nd<%s>::get(); %s %s = %s;' % (T, a, T, T, b, a))
+                        pyarg = 'vpy_of(%s)' % a
+                    if py:
+                        body.append('  vpy_tuple_set(args%s, %d, %s);' % (sfx, i, pyarg))
+                    an.append('(%s)%s' % (T, a))
+                    bn.append('(%s)%s' % (T, b))
+                call_r = '%s(%s)' % (refs[key], ', '.join(bn))
+                rw, rr, tw, tr = 'rw' + sfx, 'rr' + sfx, 'tw' + sfx, 'tr' + sfx
+                body.append('  g_trace = 0;')
+                if py:
+                    body.append('  PyObject *%s = %s(0, args%s); int %s = g_trace; g_trace = 0;' % (rw, w['name'], sfx, tw))
+                    body.append('  ASSERT(%s != 0 && vpy_get_error() == 0, "C01 python wrapper accepts every argument tuple whose values lie in the parameter types");' % rw)
+                    g = '%s == 0 ||' % rw
+                elif rcat[0] == 'void':
+                    body.append('  %s(%s); int %s = g_trace; g_trace = 0;' % (w['name'], ', '.join(an), tw))
+                    g = ''
                 else:
-                    body.append('  %s a%d = Nd<%s>::get(); %s b%d = a%d;' % (T, i, T, T, i, i))
-                    body.append('  vpy_tuple_set(args, %d, vpy_of(a%d));' % (i, i))
-                bn.append('(%s)b%d' % (T, i))
-            call_r = '%s(%s)' % (refs[key], ', '.join(bn))
-            body.append('  g_trace = 0;')
-            body.append('  PyObject *rw = %s(0, args); int tw = g_trace; g_trace = 0;' % w['name'])
-            body.append('  ASSERT(rw != 0 && vpy_get_error() == 0, "C01 python wrapper accepts every argument tuple whose values lie in the parameter types");')
-            if rcat[0] == 'void':
-                body.append('  %s; int tr = g_trace;' % call_r)
-                body.append('  ASSERT(rw == 0 || vpy_kind(rw) == 6, "C01 python wrapper of a void function returns None");')
-            else:
-                body.append('  %s rr = %s; int tr = g_trace;' % (rtype, call_r))
-            body.append('  ASSERT(rw == 0 || tw == tr, "C01 wrapper reaches the overload/default variant the database names (trace cell)");')
-            if rcat[0] == 'objptr':
-                b = ident(rcat[1])
-                body.append('  %s *pw = rw ? (%s *)vpy_ival(rw) : 0;' % (rcat[1], rcat[1]))
-                body.append('  ASSERT(rw == 0 || vpy_kind(rw) == 1, "C01 python wrapper returns object handles as integers");')
-                body.append('  ASSERT(rw == 0 || (pw == 0) == (rr == 0), "C01 wrapper result null-ness equals the direct call");')
-                for i, c in enumerate(cats):
-                    if c[0] == 'objptr':
-                        body.append('  ASSERT(rw == 0 || ((const void *)pw == (const void *)a%d) == ((const void *)rr == (const void *)b%d), "C01 wrapper result aliases the same argument as the direct call");' % (i, i))
-                body.append('  ASSERT(rw == 0 || pw == 0 || rr == 0 || verif_same_%s(pw, rr), "C01 wrapper result object equals the direct call result");' % b)
-            elif rcat[0] == 'cstr':
-                body.append('  ASSERT(rw == 0 || (vpy_kind(rw) == 4 && verif_same_cstr(vpy_sptr(rw), rr)), "C01 wrapper string result equals the direct call");')
-            elif rcat[0] in ('scalar', 'enum'):
-                body.append('  ASSERT(rw == 0 || vpy_equals(rw, rr), "C01 wrapper return value equals the direct call");')
-            for i, c in enumerate(cats):
-                if c[0] == 'objptr':
-                    body.append('  ASSERT(rw == 0 || verif_same_%s(a%d, b%d), "C01 wrapper leaves argument objects in the same state as the direct call");' % (c[2], i, i))
+                    body.append('  %s %s = %s(%s); int %s = g_trace; g_trace = 0;' % (rtype, rw, w['name'], ', '.join(an), tw))
+                    g = ''
+                if rcat[0] == 'void':
+                    body.append('  %s; int %s = g_trace;' % (call_r, tr))
+                    if py:
+                        body.append('  ASSERT(%s vpy_kind(%s) == 6, "C01 python wrapper of a void function returns None");' % (g, rw))
+                elif ref_is_string:
+                    body.append('  std::string %s = %s; int %s = g_trace;' % (rr, call_r, tr))
+                else:
+                    body.append('  %s %s = %s; int %s = g_trace;' % (rtype, rr, call_r, tr))
+                body.append('  ASSERT(%s %s == %s, "C01 wrapper reaches the overload/default variant the database names (trace cell)");' % (g, tw, tr))
+                if rcat[0] == 'objptr':
+                    bsuf = ident(rcat[1])
+                    if py:
+                        body.append('  %s *pw%s = %s ? (%s *)vpy_ival(%s) : 0;' % (rcat[1], sfx, rw, rcat[1], rw))
+                        body.append('  ASSERT(%s vpy_kind(%s) == 1, "C01 python wrapper returns object handles as integers");' % (g, rw))
+                        pw = 'pw' + sfx
+                    else:
+                        pw = rw
+                    body.append('  ASSERT(%s (%s == 0) == (%s == 0), "C01 wrapper result null-ness equals the direct call");' % (g, pw, rr))
+                    for i, c in enumerate(cats):
+                        if c[0] == 'objptr':
+                            body.append('  ASSERT(%s ((const void *)%s == (const void *)a%d%s) == ((const void *)%s == (const void *)b%d%s), "C01 wrapper result aliases the same argument as the direct call");' % (g, pw, i, sfx, rr, i, sfx))
+                    body.append('  ASSERT(%s %s == 0 || %s == 0 || verif_same_%s(%s, %s), "C01 wrapper result object equals the direct call result");' % (g, pw, rr, bsuf, pw, rr))
+                elif rcat[0] == 'cstr':
+                    if py and ref_is_string:
+                        body.append('  ASSERT(%s (vpy_kind(%s) == 4 && verif_same_pystr(%s, %s)), "C01 wrapper string result equals the direct call, without truncation");' % (g, rw, rw, rr))
+                    elif py:
+                        body.append('  ASSERT(%s (vpy_kind(%s) == 4 && verif_same_cstr(vpy_sptr(%s), %s)), "C01 wrapper string result equals the direct call");' % (g, rw, rw, rr))
+                    elif ref_is_string:
+                        body.append('  ASSERT(verif_same_cstr(%s, %s.c_str()), "C01 wrapper string result equals the direct call");' % (rw, rr))
+                    else:
+                        body.append('  ASSERT(verif_same_cstr(%s, %s), "C01 wrapper string result equals the direct call");' % (rw, rr))
+                elif rcat[0] in ('scalar', 'enum'):
+                    if py:
+                        body.append('  ASSERT(%s vpy_equals(%s, %s), "C01 wrapper return value equals the direct call");' % (g, rw, rr))
+                    else:
+                        body.append('  ASSERT(verif_same_scalar(%s, %s), "C01 wrapper return value equals the direct call");' % (rw, rr))
+                for ps in post:
+                    body.append(ps % g)
             body.append('  WITNESS();')
             body.append('}')
             out += body + ['']
@@ -309,7 +283,8 @@ def gen_harness_py(corpus, optname, wrappers, refs, strmax, argov={}, variants={
 
 def run_cbmc(unit_c, models, entry, workdir, cap, unwind):
     outp = os.path.join(workdir, entry + '.json')
-    cmd = ['cbmc', unit_c] + models + ['--function', entry, '--unwind', str(unwind)] + CBMC_FLAGS + ['--trace', '--json-ui']
+    cmd = ['cbmc', unit_c] + models + ['--function', entry, '--unwind', str(unwind), '--unwindset',
+           'vpy_str_n.0:20,ll_memcpy.0:40,ll_memcpy_ptr.0:40,ll_memcpy_ptr.1:40,ll_memmove.0:40,ll_memmove.1:40,ll_memmove_ptr.0:40,ll_memmove_ptr.1:40,ll_memmove_ptr.2:40,ll_memmove_ptr.3:40'] + CBMC_FLAGS + ['--trace', '--json-ui']
     t0 = time.time()
     try:
         with open(outp, 'w') as fo:
@@ -419,7 +394,11 @@ def main():
         jobs = []
         for corpus in corpora:
             refs = parse_refs(os.path.join(CORPUS, corpus + '.ref.h'))
+            allowed = re.search(r'^//OPTIONS\s+(.*)$', open(os.path.join(CORPUS, corpus + '.ref.h')).read(), flags=re.M)
+            allowed = set(x.strip() for x in allowed.group(1).split(',')) if allowed else None
             for optname, opts in OPTION_SETS[tier]:
+                if allowed is not None and optname not in allowed:
+                    continue
                 tag = '%s.%s' % (corpus, optname)
                 wd = os.path.join(scratch, tag)
                 os.makedirs(wd)
@@ -450,8 +429,7 @@ def main():
                 if '-nodb' in opts or not callable_w:
                     continue
                 is_py = '-python' in opts
-                gh = gen_harness_py if is_py else gen_harness
-                src, entries, skipped, missing, unused = gh(corpus, optname, callable_w, refs, strmax, parse_args(os.path.join(CORPUS, corpus + '.ref.h')), parse_variants(os.path.join(CORPUS, corpus + '.ref.h')))
+                src, entries, skipped, missing, unused = gen_harness(corpus, optname, callable_w, refs, strmax, parse_args(os.path.join(CORPUS, corpus + '.ref.h')), parse_variants(os.path.join(CORPUS, corpus + '.ref.h')), py=is_py)
                 hsrc = os.path.join(wd, 'harness_%s.cxx' % tag.replace('.', '_'))
                 open(hsrc, 'w').write(src)
                 for (wn, key) in missing:
@@ -464,7 +442,7 @@ def main():
                 if not entries:
                     continue
                 try:
-                    unit_c, meta = L.build_unit(tag, hsrc, [e['entry'] for e in entries], [gen], hflags=incs[:5] + ['-fno-fast-math'], tuflags=incs[:5] + ['-fno-fast-math'])
+                    unit_c, meta = L.build_unit(tag, hsrc, [e['entry'] for e in entries], [gen, os.path.join(VERIF, 'harness/stdinst.cxx')], hflags=incs[:5] + ['-fno-fast-math'], tuflags=incs[:5] + ['-fno-fast-math'])
                 except Exception as e:
                     # generated code that does not compile is itself a violation (C03/C01)
                     msg = str(e)
@@ -485,7 +463,7 @@ def main():
         cap = 150 if tier == 'quick' else 900
 
         def work(j):
-            r = run_cbmc(j['unit_c'], j['models'], j['e']['entry'], j['wd'], cap, 8 if tier == 'quick' else 10)
+            r = run_cbmc(j['unit_c'], j['models'], j['e']['entry'], j['wd'], cap, 10 if tier == 'quick' else 12)
             return j, r
         with ThreadPoolExecutor(max_workers=a.jobs) as ex:
             results = list(ex.map(work, jobs))
@@ -497,7 +475,8 @@ def main():
                 errors.append(dict(corpus=j['tag'], wrapper=e['wrapper'], error=r.get('error', r['status'])))
                 print('%-44s %-10s %6.1fs' % (name, r['status'], r['wall']))
                 continue
-            fails = [x for x in r['results'] if x['status'] != 'SUCCESS']
+            fails = [x for x in r['results'] if x['status'] == 'FAILURE']
+            unknown = [x for x in r['results'] if x['status'] not in ('SUCCESS', 'FAILURE')]
             witness = [x for x in fails if x.get('description', '').startswith('WITNESS')]
             unwind = [x for x in fails if 'unwinding assertion' in x.get('description', '')]
             modelf = [x for x in fails if x.get('description', '').startswith('model:')]
@@ -528,6 +507,10 @@ def main():
             elif not witness:
                 st = 'error'
                 errors.append(dict(corpus=j['tag'], wrapper=e['wrapper'], error='vacuous harness'))
+            elif unknown:
+                # CBMC leaves properties UNKNOWN when its incremental solver turns inconsistent: not a verdict
+                st = 'error'
+                errors.append(dict(corpus=j['tag'], wrapper=e['wrapper'], error='%d properties left UNKNOWN by the solver' % len(unknown)))
             checked.append(dict(name=name, key=e['key'], status=st, vcs=len(r['results']), wall=round(r['wall'], 1)))
             print('%-44s %-10s %6.1fs vcs=%d  %s' % (name, st, r['wall'], len(r['results']), e['key']))
             if len(samples) < 12:
@@ -536,6 +519,19 @@ def main():
                                     function_hashes=dict(list(sorted(j['hashes'].items()))[:8])))
         for e in errors:
             print('ERROR %s %s: %s' % (e.get('corpus'), e.get('wrapper', ''), e['error'][:600]))
+        known = [k for k in json.load(open(os.path.join(VERIF, 'known_findings.json'))).get('findings', [])
+                 if k.get('status') != 'fixed' and k.get('harness') == 'c01check']
+        reported_known = set()
+        kept = []
+        for v in violations:
+            kf = [k for k in known if re.search(k['corpus_regex'], v['corpus']) and re.search(k['label_regex'], v['what'])]
+            if kf:
+                if kf[0]['what'] not in reported_known:
+                    reported_known.add(kf[0]['what'])
+                    print('KNOWN-FINDING: property=%s %s' % (prop, kf[0]['what']))
+            else:
+                kept.append(v)
+        violations = kept
         seen = set()
         for v in violations:
             rp = v.get('replay')
